@@ -11,6 +11,14 @@ NOTE = ("Trusted: CrossHair 0.0.110 + z3, the overlay venv, the environment stub
         "isinstance shim), the harness oracles under /verif/vf. Grammars are a fixed corpus (classes cannot be symbolic); all bounds are in evidence.assumptions.")
 
 CLAIMED = {
+    "C11": dict(
+        text="Every program produced by the create/map/mutate/crossover pipelines (all deciders, all representations, grammars with nodes inside lists, "
+             "tuples and unions), with all draws symbolic, is traversed by an independent reference that recomputes node count, distance to terminal, "
+             "weighted size and the per-class index of descendants from the actual structure and compares them with the labels found on EVERY node; in "
+             "addition a stripped deep copy is relabelled from the root and must agree (history independence: no stale labels on reused subtrees). "
+             "Path trees exhausted per obligation. Bounds: depth <= 3, one variation step, default counting mode (expansion_depthing=False).",
+        design_ref="DESIGN.md section 4 (C11)",
+    ),
     "C10": dict(
         text="Every create/map/mutate/crossover pipeline of every representation is run on grammars that force internal backtracking (dependent "
              "refinements that make a production infeasible in some contexts) and on weighted grammars, with all draws symbolic; a by-value snapshot of "
